@@ -8,9 +8,10 @@ import (
 
 func TestVerifReplay(t *testing.T) {
 	vrt.RunReplay(t, map[string]func(){
-		"VerifC10Quick":    VerifC10Quick,
-		"VerifC10Thorough": VerifC10Thorough,
-		"VerifC10Three":    VerifC10Three,
-		"VerifC10Scan3":    VerifC10Scan3,
+		"VerifC10Quick":      VerifC10Quick,
+		"VerifC10Thorough":   VerifC10Thorough,
+		"VerifC10Three":      VerifC10Three,
+		"VerifC10Scan3":      VerifC10Scan3,
+		"VerifC10UtxoReplay": VerifC10UtxoReplay,
 	})
 }
